@@ -1,5 +1,6 @@
 import CTV.Gen.CtTypes
 import CTV.Rfc6962.Wire
+import CTV.Rfc6962.Api
 /-!
 # The repository's CT wire types as codec types, and the RFC values as codec values (core only)
 
@@ -181,5 +182,26 @@ def toSTHRfc (treeSize timestamp : Nat) (root : Bytes) (sig : Bytes) : Option ST
     | some d => some ⟨treeSize, timestamp, root, d⟩
     | none => none
   else none
+
+/-! ## the JSON API messages: how encoding/json maps the Go field types of types.go -/
+
+/-- `uint64`/`int64`/`Version` → JSON number; `[]byte` → base64 string (encoding/json); `string` → a string the caller
+treats as base64 (`AddChainResponse.Extensions`, `GetRootsResponse.Certificates`); slices of those → arrays -/
+def jkindOf (goType : String) : Option Rfc.JKind :=
+  if goType = "uint64" ∨ goType = "int64" ∨ goType = "Version" then some .number
+  else if goType = "[]byte" ∨ goType = "string" then some .base64
+  else if goType = "[][]byte" ∨ goType = "[]string" then some .base64List
+  else if goType = "[]LeafEntry" then some .entryList
+  else none
+
+/-- which Go struct carries which RFC 6962 §4 message -/
+def goStructOf : List (String × String) :=
+  [("add-chain-input", "AddChainRequest"), ("add-chain-output", "AddChainResponse"), ("get-sth", "GetSTHResponse"),
+   ("get-sth-consistency", "GetSTHConsistencyResponse"), ("get-proof-by-hash", "GetProofByHashResponse"),
+   ("get-entries", "GetEntriesResponse"), ("get-roots", "GetRootsResponse"), ("get-entry-and-proof", "GetEntryAndProofResponse")]
+
+/-- the regenerated `json:"…"` names and kinds of a Go struct -/
+def jsonShape (goStruct : String) : Option (List (String × Option Rfc.JKind)) :=
+  (Gen.apiJson.lookup goStruct).map fun fs => fs.map fun (_, ty, jn) => (jn, jkindOf ty)
 
 end CtWire
